@@ -30,6 +30,12 @@ def reader(file_info, **kwargs):
     if d.get("delay"):
         time.sleep(d["delay"])
     if d.get("broken"):
+        import multiprocessing
+        if multiprocessing.parent_process() is not None:
+            # keep the expected traceback of the crashing worker out of the check's output
+            import os
+            import sys
+            sys.stderr = open(os.devnull, "w")
         raise UnreadableFile(f"harness: unreadable file {file_info.path}")
     ids = np.asarray(d["ids"], dtype="int64")
     ds = xr.Dataset(
